@@ -128,6 +128,16 @@ fn run_loss_chain_case(id: &str, r: &mut Rng, out: &mut String) {
             }
         }
     }
+    // ... and some in a foreign currency booked at par (an exchange rate of exactly 1 is not "no rate")
+    else if r.chance(25) {
+        for t in rows.iter_mut() {
+            match &mut t.action_specifics {
+                TxActionSpecifics::Sell(sp) => sp.tx_currency_and_rate = ledger::cer("USD", Decimal::ONE),
+                TxActionSpecifics::Buy(bp) => bp.tx_currency_and_rate = ledger::cer("USD", Decimal::ONE),
+                _ => {}
+            }
+        }
+    }
     for (i, t) in rows.iter_mut().enumerate() {
         t.read_index = i as u32;
         t.security = "S0".to_string();
